@@ -1,4 +1,4 @@
-//@unit name=dmlwal props=C01,C02,C03,C04,C09,C10
+//@unit name=dmlwal props=C01,C02,C03,C04,C09,C10,C07
 //@strip-pub
 // Unit `dmlwal`: the three row-level write paths DmlExecutor::{insert, update, delete}.
 //   C01/C02 write-ahead rule: the log record naming this table and this row is appended BEFORE the
@@ -6,6 +6,8 @@
 //   C03/C04 every version written carries the writing transaction's own id (creator of an inserted
 //           or updated version, deleter of a deleted one); a row the transaction's snapshot cannot
 //           see is neither logged nor modified.
+//   C07 constraint validation (NOT NULL: unit notnull; UNIQUE / foreign keys: outside) of the row
+//           image that is going to be stored comes before the log record and the tree write.
 // Typestate: covered(root, key) ("a log record for this row of this table has been appended") and
 // Tuple::writer() are facts about immutable values established only by the env's log_* / stamping
 // calls; the env states no negative fact, so a fact is available exactly when the call came first.
@@ -67,10 +69,13 @@ pub struct Assignments { _p: () }
 pub struct Stats { _p: () }
 #[verifier::external_body]
 pub struct Row { _p: () }
+pub uninterp spec fn vals_ok(v: Seq<DataType>) -> bool;          // "these column values passed constraint validation"
+pub uninterp spec fn upd_ok(old: Seq<DataType>, a: &Assignments) -> bool;   // "old values with these assignments applied passed validation"
 impl Row {
     pub uninterp spec fn rid(&self) -> u64;
+    pub uninterp spec fn vals(&self) -> Seq<DataType>;
     #[verifier::external_body]
-    pub fn as_slice(&self) -> (r: &[DataType]) { unimplemented!() }
+    pub fn as_slice(&self) -> (r: &[DataType]) ensures r@ == self.vals() { unimplemented!() }
 }
 
 #[verifier::external_body]
@@ -78,6 +83,7 @@ pub struct Tuple { _p: () }
 impl Tuple {
     pub uninterp spec fn key(&self) -> Seq<u8>;
     pub uninterp spec fn writer(&self) -> u64;     // who stamped the newest version / the delete mark
+    pub uninterp spec fn checked(&self) -> bool;   // the stored image was built from validated values
     #[verifier::external_body]
     pub fn clone(&self) -> (r: Tuple) ensures r.key() == self.key() { unimplemented!() }
     #[verifier::external_body]
@@ -85,7 +91,8 @@ impl Tuple {
         ensures final(self).key() == old(self).key(), r is Ok ==> final(self).writer() == xid { unimplemented!() }
     #[verifier::external_body]
     pub fn add_version_with(&mut self, a: &Assignments, tid: TransactionId, s: &Schema) -> (r: RuntimeResult<()>)
-        ensures final(self).key() == old(self).key(), r is Ok ==> final(self).writer() == tid { unimplemented!() }
+        ensures final(self).key() == old(self).key(), r is Ok ==> final(self).writer() == tid,
+            r is Ok ==> (forall|o: Seq<DataType>| upd_ok(o, a) ==> final(self).checked()) { unimplemented!() }
     pub uninterp spec fn del(&self) -> bool;
     #[verifier::external_body]
     pub fn is_deleted(&self) -> (r: bool) ensures r == self.del() { unimplemented!() }
@@ -103,7 +110,7 @@ impl TupleBuilder {
     pub fn from_schema(s: &Schema) -> TupleBuilder { unimplemented!() }
     #[verifier::external_body]
     pub fn build(&self, row: &Row, tid: TransactionId) -> (r: RuntimeResult<Tuple>)
-        ensures r matches Ok(t) ==> t.key() == ser(row.rid()) && t.writer() == tid { unimplemented!() }
+        ensures r matches Ok(t) ==> t.key() == ser(row.rid()) && t.writer() == tid && (vals_ok(row.vals()) ==> t.checked()) { unimplemented!() }
 }
 #[verifier::external_body]
 pub struct TupleReader { _p: () }
@@ -222,13 +229,16 @@ pub struct TransactionLogger { _p: () }
 impl TransactionLogger {
     #[verifier::external_body]
     pub fn log_insert(&self, oid: ObjectId, rowid: RowId, data: Image) -> (r: RuntimeResult<()>)
-        requires [C01,C02:dml.insert_log_names_the_row] ser(rowid) == data.of().key(),
+        requires
+            [C01,C02:dml.insert_log_names_the_row] ser(rowid) == data.of().key(),
+            [C07:dml.insert_validated_before_logged] data.of().checked(),
         ensures r is Ok ==> covered(root_of(oid), data.of().key()),
     { unimplemented!() }
     #[verifier::external_body]
     pub fn log_update(&self, oid: ObjectId, rowid: RowId, old_data: Image, new_data: Image) -> (r: RuntimeResult<()>)
         requires
             [C01,C02:dml.update_log_names_the_row] ser(rowid) == old_data.of().key() && old_data.of().key() == new_data.of().key(),
+            [C07:dml.update_validated_before_logged] new_data.of().checked(),
         ensures r is Ok ==> covered(root_of(oid), new_data.of().key()),
     { unimplemented!() }
     #[verifier::external_body]
@@ -245,9 +255,11 @@ impl DmlExecutor {
     pub fn build_full_row(&self, schema: &Schema, columns: &[usize], values: &Row, row_id: UInt64) -> (r: RuntimeResult<Row>)
         ensures r matches Ok(row) ==> row.rid() == row_id.v() { unimplemented!() }
     #[verifier::external_body]
-    pub fn validate_insert_constraints(&self, relation: &Relation, new_values: &[DataType]) -> RuntimeResult<()> { unimplemented!() }
+    pub fn validate_insert_constraints(&self, relation: &Relation, new_values: &[DataType]) -> (r: RuntimeResult<()>)
+        ensures r is Ok ==> vals_ok(new_values@) { unimplemented!() }
     #[verifier::external_body]
-    pub fn validate_update_constraints(&self, relation: &Relation, old_values: &[DataType], assignments: &Assignments, row_id: RowId) -> RuntimeResult<()> { unimplemented!() }
+    pub fn validate_update_constraints(&self, relation: &Relation, old_values: &[DataType], assignments: &Assignments, row_id: RowId) -> (r: RuntimeResult<()>)
+        ensures r is Ok ==> upd_ok(old_values@, assignments) { unimplemented!() }
     #[verifier::external_body]
     pub fn maintain_secondary_indexes(&mut self, indexes: &Vec<IndexHandle>, old_values: Option<Row>, new_values: Option<Row>, table_assignments: Option<Assignments>, table_schema: &Schema, row_id: RowId) -> (r: RuntimeResult<()>)
         ensures final(self).ctx == old(self).ctx { unimplemented!() }
